@@ -3,10 +3,10 @@
 (* x position for the optional constructs ==nil, !=nil, get, or, ?=.             *)
 EXTENDS Ast, TLC, Json
 
-Carriers == {"var", "param", "result", "elem", "field", "indexof"}
+Carriers == {"var", "param", "result", "elem", "field", "indexof", "elembox", "fieldbox"}
 Types == {"int", "str", "list"}
 Uses == {"eqnil", "nenil", "get", "or", "orlit", "unwrap_if", "unwrap_stmt", "unwrap_print",
-         "unwrap_while", "eqval", "getuse", "orchain", "unwrap_nested", "unwrap_twice", "unwrap_nested_twice", "or_closure", "or_use", "get_use"}
+         "unwrap_while", "eqval", "getuse", "orchain", "unwrap_nested", "unwrap_twice", "unwrap_nested_twice", "or_closure", "or_use", "get_use", "nil_left"}
 Positions == {"stmt", "inif", "inwhile", "infn"}
 
 (* excluded: an int captured by a function literal is refused as a list index by the type   *)
@@ -15,7 +15,7 @@ Positions == {"stmt", "inif", "inwhile", "infn"}
 Valid(s) == /\ ~(s.ty = "list" /\ s.use = "or_use")      \* `==` between lists of optional provenance: see eqval
             /\ ~(s.carrier = "elem" /\ s.pos = "infn") /\ ~(s.carrier = "field" /\ s.pos = "infn")
             \* the result of a built-in (`index_of`: a *wrapped* optional at run time); its value is an int
-            /\ (s.carrier = "indexof" => s.ty = "int" /\ s.pos # "infn") /\ ~(s.ty = "list" /\ s.use = "eqval")
+            /\ (s.carrier \in {"indexof", "elembox", "fieldbox"} => s.ty = "int" /\ s.pos # "infn") /\ ~(s.ty = "list" /\ s.use = "eqval")
 Scenarios == {s \in [carrier : Carriers, ty : Types, present : BOOLEAN, use : Uses, pos : Positions] : Valid(s)}
 
 VARIABLE sc
@@ -37,6 +37,16 @@ Setup(s) ==
       [] s.carrier = "elem" -> <<LetT("xs", "[" \o Opt(s.ty) \o "...]", List(<<Nil, Val(s.ty)>>)),
                                  Let("k", I(IF s.present THEN 1 ELSE 0))>>
       [] s.carrier = "indexof" -> <<LetT("hs", "[int...]", List(<<I(7), I(5)>>))>>
+      \* a *boxed* optional (the result of a built-in) stored in a list element / in a field
+      [] s.carrier = "elembox" -> <<LetT("hs", "[int...]", List(<<I(7), I(5)>>)),
+                                    LetT("xs", "[int?...]", List(<<MCall(V("hs"), "index_of", <<I(99)>>), MCall(V("hs"), "index_of", <<I(5)>>)>>)),
+                                    Let("k", I(IF s.present THEN 1 ELSE 0))>>
+      [] s.carrier = "fieldbox" ->
+           <<LetT("hs", "[int...]", List(<<I(7), I(5)>>)),
+             [k |-> "class", n |-> "Holder", export |-> FALSE, fields |-> <<[n |-> "f", ty |-> "int?"]>>,
+              ctor |-> <<[ps |-> <<>>, b |-> <<Assign(Fld(Self, "f"), "=", Nil)>>]>>, methods |-> <<>>],
+             Let("h", New("Holder", <<>>)),
+             Assign(Fld(V("h"), "f"), "=", MCall(V("hs"), "index_of", <<I(IF s.present THEN 5 ELSE 99)>>))>>
       \* an optional field of an object
       [] s.carrier = "field" ->
            <<[k |-> "class", n |-> "Holder", export |-> FALSE, fields |-> <<[n |-> "f", ty |-> Opt(s.ty)]>>,
@@ -48,6 +58,8 @@ E(s) == CASE s.carrier = "var" -> V("v")
           [] s.carrier = "result" -> Call(V("mk"), <<B(s.present)>>)
           [] s.carrier = "elem" -> Idx(V("xs"), V("k"))
           [] s.carrier = "field" -> Fld(V("h"), "f")
+          [] s.carrier = "elembox" -> Idx(V("xs"), V("k"))
+          [] s.carrier = "fieldbox" -> Fld(V("h"), "f")
           [] s.carrier = "indexof" -> MCall(V("hs"), "index_of", <<I(IF s.present THEN 5 ELSE 99)>>)
 
 DeclW(s) == LetT("w", Opt(s.ty), Nil)
@@ -77,6 +89,9 @@ UseStmts(s) ==
            <<Print(CASE s.ty = "int" -> Bin("*", Get(E(s)), I(2))
                      [] s.ty = "str" -> Bin("+", Get(E(s)), S("!"))
                      [] s.ty = "list" -> MCall(Get(E(s)), "len", <<>>))>>
+      \* nil written on the left of the comparison
+      [] s.use = "nil_left" -> <<Print(Bin("==", Nil, E(s))), Print(Bin("!=", Nil, E(s))),
+                                 If(Bin("==", Nil, E(s)), <<Print(S("empty"))>>), If(Bin("!=", Nil, E(s)), <<Print(S("full"))>>)>>
       [] s.use = "orlit" -> <<Print(Or(E(s), Val2(s.ty)))>>
       [] s.use = "orchain" -> <<Print(Or(E(s), Or(E(s), Call(V("dflt"), <<>>))))>>
       [] s.use = "unwrap_if" -> <<DeclW(s), IfElse(UnwrapInto("w", E(s)), <<Print(V("w"))>>, <<Print(S("none"))>>),
